@@ -306,7 +306,11 @@ class SigWorld(World):
             # producer answers with signed Data; the Data is what the middlebox touches
             signer = None if flow['signer'] == 'none' else RecordingSigner(make_signer(flow['signer'], flow['key'], False), rec)
             content = bytes((i * 3 + cfid) & 0xff for i in range(src['content_len']))
-            dwire = bytes(enc.make_data(name, enc.MetaInfo(freshness_period=flow.get('fresh')), content, signer=signer))
+            mi = enc.MetaInfo(content_type=src.get('ctype', 0), freshness_period=src.get('fresh'),
+                              final_block_id=None if src.get('final') is None else bytes(tlvref.name_from_uri('/' + src['final'])[0]))
+            if src.get('no_meta'):
+                mi = None
+            dwire = bytes(enc.make_data(name, mi, content if not src.get('no_content') else None, signer=signer))
             flow['_made'] = dwire
 
             def handler(*a, **k):
@@ -600,13 +604,23 @@ def generate(rng, seed, tier='quick'):
         else:
             clen = rng.choice([65530, 65536, 70000])
         f = {'id': i + 1, 'dir': d, 'signer': signer, 'key': rng.randint(0, 2),
-             'name': ['s', f'f{i}'] + [rng.choice(['a', 'b', 'c']) for _ in range(rng.randint(0, 4))],
+             'name': ['s', f'f{i}'] + [rng.choice(['a', 'b', 'c', 'seg=0', 'seg=256', 'v=1', 't=1700000000000', '%00', '%C3%A9', '32=x',
+                                                    '65535=zz', '8=', 'KEY', 'x%2Fy']) for _ in range(rng.randint(0, 5))],
              'content_len': clen, 'app_param_len': rng.choice([0, 0, 1, 10, 252, 253, 300]) if d == 'interest' else 0,
              'mut_dir': 'p2c' if d == 'data' else 'c2p', 'lifetime': 20, 'delay_us': rng.choice([1, 10, 1000]),
              'mutation': rand_mut(rng) if rng.random() < 0.75 else None,
              'verifier': 'match' if rng.random() < 0.9 else 'wrongkey'}
         if rng.random() < 0.2:
             f['fresh'] = rng.choice([0, 1000, 2 ** 32])
+        if d == 'data':
+            if rng.random() < 0.15:
+                f['ctype'] = rng.choice([1, 2, 3, 255, 65536])
+            if rng.random() < 0.15:
+                f['final'] = rng.choice(['seg=0', 'seg=255', 'seg=256', 'v=3', 'end'])
+            if rng.random() < 0.05:
+                f['no_meta'] = True
+            if rng.random() < 0.05:
+                f['no_content'] = True
         if d == 'interest':
             f['cbp'] = rng.random() < 0.3
             f['mbf'] = rng.random() < 0.3
